@@ -21,7 +21,8 @@ RULE = ('Single-update cases on a real broker with a stub data handler whose quo
         'the update time for buys, bid for sells (exact); commission == rate*|round(price*qty)| (either '
         'neighbour on an exact half), >= 0, 0 for the zero model; cash delta on a zero-funded portfolio == '
         '-(price*qty + commission); mirrored commission identical. Non-trivial = bid != ask, rate > 0 and '
-        'price*qty at least 0.01 away from a whole number and from .5.')
+        'price*qty at least 0.01 away from a whole number and from .5.'
+        " Round-4/5 reach: the broker's fee_model attribute replaced before the fills; a third of the cases pre-load positions the orders add to, reduce, close or cross through (cash compared as a delta); a third route the orders through ExecutionHandler + MarketOrderExecutionAlgorithm at the update time.")
 ASSUMPTIONS = [
     'the stub data handler stands in for any DataHandler (the shipped one returns bid == ask)',
     'update instants at least one minute inside exchange hours (boundaries are C04\'s subject)',
@@ -74,20 +75,43 @@ def _run(case, mirror, fee_obj=None):
     log = []
     for pid in pids:
         b.create_portfolio(pid)
+    # positions the portfolios already hold when the orders arrive (booked at the submit time, no commission): an
+    # order may add to, reduce, close or cross through them
+    for k, (a, qty, bid, ask, pid, ocomm) in enumerate(orders):
+        pr = (case.get('prior') or [])
+        if k < len(pr) and pr[k]:
+            held = pr[k] if not mirror else -pr[k]
+            b.portfolios[pid].transact_asset(q.Transaction(a, held, t0, 10.0, 'prior%d' % k, commission=0.0))
+    cash0 = {p: b.portfolios[p].cash for p in pids}
+    hist0 = {p: len(b.portfolios[p].history) for p in pids}
+    for pid in pids:
         kit.tap(b.portfolios[pid], log, pid)
     by_id = {}
     if case.get('swap_fee') and fee_obj is not None:
         # the fee schedule configured on the broker changes before the fills: fills follow the broker's current model
         b.fee_model = fee_obj
+    built = []
     for a, qty, bid, ask, pid, ocomm in orders:
         od = q.Order(t0, a, qty, commission=ocomm) if ocomm else q.Order(t0, a, qty)
         by_id[od.order_id] = (a, qty, bid, ask, pid)
-        b.submit_order(pid, od)
-    if any(b.portfolios[p].cash != 0.0 for p in pids) or log:
-        raise Violation('submitting changed cash or filled at once')
-    b.update(t1)
-    if len(log) != len(orders):
-        raise Inconclusive('expected %d fills, saw %d' % (len(orders), len(log)))
+        built.append((pid, od))
+    if case.get('via_exec'):
+        # the orders of each portfolio go through the execution handler at the update time, as a rebalance does
+        from qstrader.execution.execution_handler import ExecutionHandler
+        from qstrader.execution.execution_algo.market_order import MarketOrderExecutionAlgorithm
+        for pid in pids:
+            eh = ExecutionHandler(b, pid, None, submit_orders=True, execution_algo=MarketOrderExecutionAlgorithm(),
+                                  data_handler=dh)
+            eh(t1, [od for p_, od in built if p_ == pid])
+    else:
+        for pid, od in built:
+            b.submit_order(pid, od)
+        if any(b.portfolios[p].cash != cash0[p] for p in pids) or log:
+            raise Violation('submitting changed cash or filled at once')
+        b.update(t1)
+    by_order = {}
+    for tpid, txn in log:
+        by_order.setdefault(txn.order_id, []).append(txn)
     rate = kit.fee_rate(case['fee'])
     out = []
     spent = {p: F(0) for p in pids}
@@ -121,12 +145,14 @@ def _run(case, mirror, fee_obj=None):
         spent[tpid] += x + F(float(comm))
         gross[tpid] += abs(x)
         out.append((a, abs(qty), comm, x, (qty > 0) != mirror))
-    hist = [e for p in pids for e in b.portfolios[p].history if e.type == 'asset_transaction']
+    if len(log) != len(orders):
+        raise Inconclusive('expected %d fills, saw %d' % (len(orders), len(log)))
+    hist = [e for p in pids for e in b.portfolios[p].history[hist0[p]:] if e.type == 'asset_transaction']
     if len(hist) != len(log) or any(e.dt != t1 for e in hist):
         raise Violation('history events %s do not match %d fills at %s' % ([(e.dt, e.type) for e in hist], len(log), t1))
     for p in pids:
-        cash = b.portfolios[p].cash
-        if abs(cash - float(-spent[p])) > 1e-9 * max(1.0, float(gross[p])):
+        cash = b.portfolios[p].cash - cash0[p]
+        if abs(cash - float(-spent[p])) > 1e-9 * max(1.0, float(gross[p]), abs(cash0[p])):
             raise Violation('cash of %s after the fills %r != -(price*qty + commission) = %r' % (p, cash, float(-spent[p])))
     return out, rate
 
@@ -165,6 +191,13 @@ def run_case(case):
     cls.append('orders_%d' % len(case['orders']))
     if case.get('swap_fee'):
         cls.append('fee_model_replaced_after_construction')
+    if any(case.get('prior') or []):
+        cls.append('orders_meet_existing_positions')
+        for o, pr in zip(case['orders'], case['prior']):
+            if pr and (pr > 0) != (o['qty'] > 0) and abs(o['qty']) > abs(pr):
+                cls.append('order_crosses_through_flat')
+    if case.get('via_exec'):
+        cls.append('through_execution_handler')
     if any(o.get('order_commission') for o in case['orders']):
         cls.append('order_with_commission_attribute')
     if len(set(o['asset'] for o in case['orders'])) < len(case['orders']):
@@ -215,7 +248,14 @@ def cases(draw):
         st.none(), st.just('default'),
     ))
     swap = draw(st.sampled_from([None, None, None, 'zero', 'percent']))
-    return {'swap_fee': swap, 't_submit': [t0.year, t0.month, t0.day, t0.hour, t0.minute, t0.second],
+    prior = []
+    if draw(st.sampled_from([False, False, True])):
+        for o in orders:
+            k = draw(st.sampled_from([0, 1, 1, 2, 3]))        # nothing / opposite and smaller / opposite and larger / same side
+            m = max(1, abs(o['qty']) // 2)
+            prior.append({0: 0, 1: -m if o['qty'] > 0 else m, 2: -(abs(o['qty']) + 3) if o['qty'] > 0 else abs(o['qty']) + 3,
+                          3: 5 if o['qty'] > 0 else -5}[k])
+    return {'prior': prior, 'via_exec': draw(st.sampled_from([False, False, True])), 'swap_fee': swap, 't_submit': [t0.year, t0.month, t0.day, t0.hour, t0.minute, t0.second],
             't_update': [t1.year, t1.month, t1.day, t1.hour, t1.minute, t1.second],
             'orders': orders, 'fee': fee}
 
